@@ -729,6 +729,15 @@ func (db *DB) doFollowLeaders(stream string, tables []*table, offsets []common.O
 				}
 			}
 		}
+		// A table that has nothing recorded from a source yet (e.g. it was never
+		// flushed before a crash) needs that source's entries from the start.
+		for source := range earliestOffsetsBySource {
+			for _, os := range offsets {
+				if os[source] == nil {
+					earliestOffsetsBySource[source] = nil
+				}
+			}
+		}
 		offsetsMx.RUnlock()
 
 		if db.opts.MaxFollowAge > 0 {
